@@ -6,19 +6,25 @@ Model: `Ens.RaggedW` (`lean/Model/RaggedW.lean`), `step cfg : State α → Op α
 `RaggedArray.__setitem__ / append / map_operator / __invert__ / __init__` of `enspara/ra/ra.py` with
 `_data`, `_array`, `lengths` as separate fields.  `cfg` names a variant of the code:
 `Cfg.current` = `/repo` HEAD (the five `fix:` commits of the read-side, write-side and operator-priority
-repairs are in),
-`Cfg.beforePriority` / `Cfg.beforeC06` / `Cfg.asIs` = the variants before them.  Specification: `specStep` on a plain list
+repairs and the all-empty `append` repair are in),
+`Cfg.beforeAppendEmpty` / `Cfg.beforePriority` / `Cfg.beforeC06` / `Cfg.asIs` = the variants before them.  Specification: `specStep` on a plain list
 of rows.  Everything is for an arbitrary element type `α`, arbitrary states, operations, histories.
 
-* Full-strength theorems for `/repo` HEAD (`Cfg.current`, all five repairs committed):
-  `step_refines`, `step_preserves_coherent`, `history_refines`, `history_observers`,
-  `dtype_stable_current`, `observers_agree`, `operators_pure_current`, `iop_elementwise_current`.
-  Hypotheses: `Inv` (coherent, at least one row) of the START state and `Valid`, the guards of the
-  operations themselves (operand / mask of the array's row structure; `append` on an array that has
-  at least one cell).
+* Full-strength theorems for `/repo` HEAD (`Cfg.current`, all six repairs committed): `step_refines`,
+  `step_preserves_coherent`, `history_refines`, `history_observers`, `dtype_stable_current`,
+  `observers_agree`, `operators_pure_current`, `iop_elementwise_current`, `init_inv_rows`,
+  `init_inv_flat`.
+  Hypotheses: `Inv` (coherent, at least one row — what every constructor establishes, `init_inv_*`) of
+  the START state and `Valid`, the property's own preconditions (operand / mask of the array's row
+  structure — NOT guards of the code, see `Valid`).
+* NOT theorems, checked by the correspondence (`harness/props/c06.py`) only: object identity and
+  aliasing — "operators return NEW objects", "never alter their operands" (byte snapshots of both
+  operands, of every index object and of every value object), "building by copy never aliases the
+  caller's data".  The functional model cannot express sharing; `operators_pure*` only say that the
+  result is the element-wise image and that `step` leaves the state as it was.
 * The same statements for an arbitrary variant `cfg` carry the region `InScope cfg`
   (`…_variant` theorems); for the OLD variants the full statements are false — the
-  `…_before_fix_counterexample`s (explicitly about `Cfg.beforePriority` / `Cfg.beforeC06` / `Cfg.asIs`) document what each
+  `…_before_fix_counterexample`s (explicitly about `Cfg.beforeAppendEmpty` / `Cfg.beforePriority` / `Cfg.beforeC06` / `Cfg.asIs`) document what each
   committed repair changed.
 -/
 namespace C06
@@ -38,6 +44,54 @@ example : ¬ Coherent (⟨[1, 2, 3], [1, 2], [[9], [2, 3]], false, false⟩ : St
 /-- partitioning the concatenation by the row lengths gives the rows back (`__init__(rows)`) -/
 theorem partition_roundtrip (rows : Rows α) :
     partition (rows.map List.length) rows.flatten = rows := partition_flatten rows
+
+/-! ## constructors establish the invariant -/
+
+/-- `RaggedArray(rows)` (any non-empty list of rows, rows may be empty): the object shows exactly
+`rows` and satisfies the invariant all theorems below start from -/
+theorem init_inv_rows (rows : Rows α) (obj : Bool) (h : rows ≠ []) :
+    ∃ s, initRows rows obj = .ok s ∧ s.array = rows ∧ Inv s := initRows_spec rows obj h
+
+/-- `RaggedArray([])` is the one input that does not give a usable object (no `_data` attribute) -/
+theorem init_rows_empty (obj : Bool) : initRows ([] : Rows α) obj = .error .emptyArray := rfl
+
+/-- `RaggedArray(array=flat, lengths=ls)` with `sum(ls) = len(flat)` (list or ndarray lengths, equal or
+unequal, empty rows allowed), `/repo` HEAD: rows = the partition, invariant established -/
+theorem init_inv_flat (cfg : Cfg) (hr : cfg.readsFix = true) (d : List α) (ls : List Nat) (np obj : Bool)
+    (hne : ls ≠ []) (hsum : ls.sum = d.length) :
+    ∃ s, initFlat cfg d ls np obj = .ok s ∧ s.array = partition ls d ∧ s.data = d ∧ s.lengths = ls ∧ Inv s := by
+  refine ⟨_, initFlat_eq cfg d ls np obj hne hsum (Or.inr hr), rfl, rfl, rfl, ⟨hsum, rfl⟩, ?_⟩
+  show partition ls d ≠ []
+  exact ne_nil_of_length_eq (l' := ls) (by simp) hne
+
+/-- … and a length list that does not add up to the data is rejected (DataInvalid / ValueError) -/
+theorem init_flat_rejects (cfg : Cfg) (hr : cfg.readsFix = true) (d : List α) (ls : List Nat) (np obj : Bool)
+    (hne : ls ≠ []) (hsum : ls.sum ≠ d.length) : ∃ e, initFlat cfg d ls np obj = .error e := by
+  unfold initFlat
+  have h0 : (d.isEmpty && !cfg.readsFix) = false := by simp [hr]
+  rw [h0]
+  cases ls with
+  | nil => exact absurd rfl hne
+  | cons l0 ls =>
+    simp only [Bool.false_eq_true, if_false]
+    by_cases hb : (np && allEq (l0 :: ls)) = true
+    · simp only [hb, if_true, hr]
+      have hall : allEq (l0 :: ls) = true := by cases np <;> simp_all
+      have hrep := allEq_eq_replicate ls l0 hall
+      have hs : (l0 :: ls).sum = (ls.length + 1) * l0 := by
+        rw [hrep, sum_replicate_nat]
+      have : ¬ ((l0 :: ls).length * l0 = d.length) := by
+        intro hh
+        apply hsum
+        rw [hs]
+        simpa using hh
+      simp only [this, if_false]
+      exact ⟨_, rfl⟩
+    · simp only [hb, Bool.false_eq_true, if_false, partitionList, hsum]
+      exact ⟨_, rfl⟩
+
+example : ∃ s, initFlat Cfg.current [1, 2, 3] [1, 0, 2] true false = .ok s ∧ s.array = [[1], [], [2, 3]] :=
+  ⟨_, rfl, rfl⟩
 
 /-! ## one step -/
 
@@ -69,27 +123,39 @@ def block0' : State Int := ⟨[1, 2, 3, 4], [2, 2], [[1, 2], [3, 4]], false, fal
 
 /-! ## the guards that belong to the operations themselves -/
 
-/-- an operand of an element-wise operator has the row structure of the array; a mask has it too;
-a 2-d index has one of the forms of the tuple branch -/
+/-- **The property's own preconditions** (NOT guards of the code):
+* "operators between ragged arrays": the operand of `a ⊕ b` has the row structure of `a`.  `map_operator`
+  itself only looks at the flat data (`self._data ⊕ other._data`): with a different row structure but
+  the same number of cells it answers with `a`'s structure (the model `zipOp` does exactly that, and also
+  mirrors numpy's 1-cell broadcasting); the list-of-rows model rejects such an operand.
+* a boolean mask has the row structure of the array it indexes (`where` uses the mask's own starts).
+Every other operation is valid on every array. -/
 def Valid (s : State α) : Op α → Prop
   | .iop2 _ o => o.map List.length = s.lengths
   | .binop2 _ o => o.map List.length = s.lengths
   | .setMask mask _ => mask.map List.length = s.lengths
-  -- `append` starts with `if len(self._data) == 0: self.__init__(values)`: an array whose rows are
-  -- all empty is *replaced* by the appended rows (no repair proposed; outside the grammar)
-  | .append _ _ => s.data ≠ []
-  | .appendFlat _ => s.data ≠ []
   | _ => True
 
 instance (s : State α) [DecidableEq α] : (op : Op α) → Decidable (Valid s op)
   | .iop2 _ o => inferInstanceAs (Decidable (o.map List.length = s.lengths))
   | .binop2 _ o => inferInstanceAs (Decidable (o.map List.length = s.lengths))
   | .setMask mask _ => inferInstanceAs (Decidable (mask.map List.length = s.lengths))
-  | .append _ _ => inferInstanceAs (Decidable (s.data ≠ []))
-  | .appendFlat _ => inferInstanceAs (Decidable (s.data ≠ []))
   | .setElem _ _ _ | .viewWrite _ _ _ | .setRow _ _ | .setRows _ _ _ | .setIntSlice _ _ _
   | .set2d _ _ _ | .setPaired _ _ _ | .iop _ | .iopAt _ _ _ | .binop _ | .copyCtor _ _
-  | .npLeft _ _ => isTrue trivial
+  | .npLeft _ _ | .append _ _ | .appendFlat _ => isTrue trivial
+
+def isAppend : Op α → Bool
+  | .append _ _ => true
+  | .appendFlat _ => true
+  | _ => false
+
+/-- without `C06-append-all-empty.diff`, `append` on an array whose rows are ALL empty replaces the array
+(`if len(self._data) == 0: self.__init__(values)`): the region that variant gets right -/
+def AppendOK (cfg : Cfg) (s : State α) (op : Op α) : Prop :=
+  cfg.appendEmptyFix = true ∨ isAppend op = false ∨ s.data ≠ []
+
+instance [DecidableEq α] (cfg : Cfg) (s : State α) (op : Op α) : Decidable (AppendOK cfg s op) := by
+  unfold AppendOK; infer_instance
 
 /-- the four committed repairs are present -/
 def Repaired (cfg : Cfg) : Prop :=
@@ -103,8 +169,16 @@ def isNpLeft : Op α → Bool
 /-- With the four committed repairs every valid operation is in scope, except (without the proposed
 operator-priority repair) an operator whose left operand is a numpy scalar. -/
 theorem inScope_repaired (cfg : Cfg) (hr : Repaired cfg) (s : State α) (op : Op α) (h : Coherent s)
-    (hv : Valid s op) (hn : cfg.priorityFix = true ∨ isNpLeft op = false) :
+    (hv : Valid s op) (hn : cfg.priorityFix = true ∨ isNpLeft op = false) (ha : AppendOK cfg s op) :
     InScope cfg s op := by
+  have hap : cfg.appendEmptyFix = true ∨ isAppend op = true → cfg.appendEmptyFix = true ∨ s.data ≠ [] := by
+    intro _
+    rcases ha with ha | ha | ha
+    · exact Or.inl ha
+    · rename_i h'; rcases h' with h' | h'
+      · exact Or.inl h'
+      · rw [ha] at h'; cases h'
+    · exact Or.inr ha
   obtain ⟨h1, h2, _, h4⟩ := hr
   cases op with
   | setElem i j x => trivial
@@ -115,8 +189,8 @@ theorem inScope_repaired (cfg : Cfg) (hr : Repaired cfg) (s : State α) (op : Op
   | set2d r c v => exact ⟨idxAgree_fixed cfg h1 h r c, Or.inl h2⟩
   | setPaired r c v => exact Or.inl h2
   | setMask mask v => exact ⟨maskAgree_of_lengths cfg h mask hv (Or.inl h1), Or.inl h2⟩
-  | append vs form => exact hv
-  | appendFlat v => exact ⟨h4, hv⟩
+  | append vs form => exact ⟨hap (Or.inr rfl), Or.inl h4⟩
+  | appendFlat v => exact ⟨h4, hap (Or.inr rfl)⟩
   | iop f => exact Or.inr h1
   | iop2 g o => exact ⟨hv, Or.inr h1⟩
   | iopAt r c f => exact ⟨idxAgree_fixed cfg h1 h r c, Or.inl h2⟩
@@ -181,23 +255,56 @@ def C06_step_preserves_coherent_full (cfg : Cfg) : Prop :=
   ∀ (s s' : State Int) (o : Option (State Int)) (op : Op Int), Inv s → Valid s op →
     step cfg s op = .ok (s', o) → Coherent s'
 
+def allEmpty0 : State Int := ⟨[], [0, 0], [[], []], false, false⟩
+example : Inv allEmpty0 := by decide
+
 /-- **step_refines**, full strength, `/repo` HEAD: every valid operation on every coherent array does to
 the rows exactly what the list-of-rows model does (same result, same error kind, same operator
 result). -/
 theorem step_refines (s : State α) (op : Op α) (h : Inv s) (hv : Valid s op) :
     absR (step Cfg.current s op) = specStep s.array op :=
-  step_refines_variant Cfg.current s op h (inScope_repaired _ repaired_current s op h.1 hv (Or.inl rfl))
+  step_refines_variant Cfg.current s op h
+    (inScope_repaired _ repaired_current s op h.1 hv (Or.inl rfl) (Or.inl rfl))
 
 /-- **step_preserves_coherent**, full strength, `/repo` HEAD (also for the result of a pure operator) -/
 theorem step_preserves_coherent (s s' : State α) (o : Option (State α)) (op : Op α)
     (h : Inv s) (hv : Valid s op) (hstep : step Cfg.current s op = .ok (s', o)) :
     Coherent s' ∧ s'.array ≠ [] ∧ ∀ b, o = some b → Coherent b :=
   step_preserves_coherent_variant Cfg.current s s' o op h
-    (inScope_repaired _ repaired_current s op h.1 hv (Or.inl rfl)) (not_stale_of_fix Cfg.current rfl s op) hstep
+    (inScope_repaired _ repaired_current s op h.1 hv (Or.inl rfl) (Or.inl rfl))
+    (not_stale_of_fix Cfg.current rfl s op) hstep
 
 example : C06_step_refines_full Cfg.current := fun s op h hv => step_refines s op h hv
 example : C06_step_preserves_coherent_full Cfg.current :=
   fun s s' o op h hv hs => (step_preserves_coherent s s' o op h hv hs).1
+
+/-! ### what the all-empty `append` repair changed: the variant `Cfg.beforeAppendEmpty` (for the record) -/
+
+theorem repaired_beforeAppendEmpty : Repaired Cfg.beforeAppendEmpty := ⟨rfl, rfl, rfl, rfl⟩
+
+/-- before the repair everything except `append` onto an array whose rows are all empty was already right -/
+theorem step_refines_before_append_empty_fix (s : State α) (op : Op α) (h : Inv s) (hv : Valid s op)
+    (ha : isAppend op = false ∨ s.data ≠ []) :
+    absR (step Cfg.beforeAppendEmpty s op) = specStep s.array op :=
+  step_refines_variant Cfg.beforeAppendEmpty s op h
+    (inScope_repaired _ repaired_beforeAppendEmpty s op h.1 hv (Or.inl rfl) (Or.inr ha))
+
+/-- `RaggedArray([[], []]).append([[1]])` gave `[[1]]` (the array was REPLACED), the list of rows is
+`[[], [], [1]]`; HEAD gives the list-of-rows result -/
+theorem append_all_empty_rows_before_fix_counterexample :
+    absR (step Cfg.beforeAppendEmpty allEmpty0 (.append [[1]] .listarr)) = .ok ([[1]], none) ∧
+    specStep allEmpty0.array (.append [[1]] .listarr) = .ok ([[], [], [1]], none) ∧
+    absR (step Cfg.current allEmpty0 (.append [[1]] .listarr)) = .ok ([[], [], [1]], none) ∧
+    absR (step Cfg.beforeAppendEmpty allEmpty0 (.appendFlat [1, 2])) = .ok ([[1, 2]], none) ∧
+    absR (step Cfg.current allEmpty0 (.appendFlat [1, 2])) = .ok ([[], [], [1, 2]], none) :=
+  ⟨by decide, by decide, by decide, by decide, by decide⟩
+
+theorem step_refines_before_append_empty_fix_counterexample :
+    ¬ C06_step_refines_full Cfg.beforeAppendEmpty := by
+  intro h
+  have := h allEmpty0 (.append [[1]] .listarr) (by decide) trivial
+  revert this
+  decide
 
 /-! ### what the operator-priority repair changed: the variant `Cfg.beforePriority` (for the record) -/
 
@@ -206,9 +313,9 @@ theorem repaired_beforePriority : Repaired Cfg.beforePriority := ⟨rfl, rfl, rf
 /-- without `__array_priority__` everything except a numpy scalar on the left of an operator was
 already right -/
 theorem step_refines_before_priority_fix (s : State α) (op : Op α) (h : Inv s) (hv : Valid s op)
-    (hn : isNpLeft op = false) : absR (step Cfg.beforePriority s op) = specStep s.array op :=
+    (hn : isNpLeft op = false) (ha : isAppend op = false ∨ s.data ≠ []) : absR (step Cfg.beforePriority s op) = specStep s.array op :=
   step_refines_variant Cfg.beforePriority s op h
-    (inScope_repaired _ repaired_beforePriority s op h.1 hv (Or.inr hn))
+    (inScope_repaired _ repaired_beforePriority s op h.1 hv (Or.inr hn) (Or.inr ha))
 
 /-- `np.int64(2) * a` before the repair — ValueError on unequal rows, a plain ndarray on equal rows; the
 list-of-rows model, `2 * a`, and HEAD give the element-wise result -/
@@ -375,30 +482,47 @@ theorem history_refines_variant (cfg : Cfg) (s : State α) (ops : List (Op α)) 
   let ⟨h1, h2⟩ := run_refines cfg ops s h hall
   ⟨h1, h2.1⟩
 
-/-- every operation of the history satisfies its own guards at the state it is applied to -/
-def AllValidC (cfg : Cfg) : State α → List (Op α) → Prop
+/-- `P` holds for every operation of the history at the state it is applied to -/
+def AllAlong (cfg : Cfg) (P : State α → Op α → Prop) : State α → List (Op α) → Prop
   | _, [] => True
-  | s, op :: ops => Valid s op ∧
+  | s, op :: ops => P s op ∧
       (match step cfg s op with
-        | .ok (s', _) => AllValidC cfg s' ops
-        | .error _ => AllValidC cfg s ops)
+        | .ok (s', _) => AllAlong cfg P s' ops
+        | .error _ => AllAlong cfg P s ops)
 
+/-- every operation of the history satisfies the property's preconditions where it is applied -/
+abbrev AllValidC (cfg : Cfg) (s : State α) (ops : List (Op α)) : Prop := AllAlong cfg Valid s ops
 abbrev AllValid (s : State α) (ops : List (Op α)) : Prop := AllValidC Cfg.current s ops
+/-- … and no `append` is applied to an array whose rows are all empty -/
+abbrev AllValidNow (s : State α) (ops : List (Op α)) : Prop :=
+  AllAlong Cfg.current (fun s op => Valid s op ∧ (isAppend op = false ∨ s.data ≠ [])) s ops
 
-def decAllValidC [DecidableEq α] (cfg : Cfg) :
-    (ops : List (Op α)) → (s : State α) → Decidable (AllValidC cfg s ops)
+def decAllAlong (cfg : Cfg) (P : State α → Op α → Prop) [∀ s op, Decidable (P s op)] :
+    (ops : List (Op α)) → (s : State α) → Decidable (AllAlong cfg P s ops)
   | [], _ => isTrue trivial
   | op :: ops, s =>
     match hs : step cfg s op with
     | .ok (s', o) =>
-      have := decAllValidC cfg ops s'
-      decidable_of_iff (Valid s op ∧ AllValidC cfg s' ops) (by simp only [AllValidC, hs])
+      have := decAllAlong cfg P ops s'
+      decidable_of_iff (P s op ∧ AllAlong cfg P s' ops) (by simp only [AllAlong, hs])
     | .error e =>
-      have := decAllValidC cfg ops s
-      decidable_of_iff (Valid s op ∧ AllValidC cfg s ops) (by simp only [AllValidC, hs])
+      have := decAllAlong cfg P ops s
+      decidable_of_iff (P s op ∧ AllAlong cfg P s ops) (by simp only [AllAlong, hs])
 
-instance [DecidableEq α] (cfg : Cfg) (ops : List (Op α)) (s : State α) :
-    Decidable (AllValidC cfg s ops) := decAllValidC cfg ops s
+instance (cfg : Cfg) (P : State α → Op α → Prop) [∀ s op, Decidable (P s op)] (ops : List (Op α))
+    (s : State α) : Decidable (AllAlong cfg P s ops) := decAllAlong cfg P ops s
+
+theorem allAlong_mono (cfg : Cfg) (P Q : State α → Op α → Prop) (hpq : ∀ s op, P s op → Q s op)
+    (ops : List (Op α)) : ∀ s, AllAlong cfg P s ops → AllAlong cfg Q s ops := by
+  induction ops with
+  | nil => intro _ _; trivial
+  | cons op ops ih =>
+    intro s h
+    refine ⟨hpq s op h.1, ?_⟩
+    have h2 := h.2
+    cases hs : step cfg s op with
+    | error e => rw [hs] at h2; exact ih s h2
+    | ok res => rw [hs] at h2; exact ih res.1 h2
 
 /-- the full statement of *history_refines* for a variant of the code -/
 def C06_history_refines_full (cfg : Cfg) : Prop :=
@@ -406,7 +530,7 @@ def C06_history_refines_full (cfg : Cfg) : Prop :=
     (run cfg s ops).array = specRun s.array ops ∧ Coherent (run cfg s ops)
 
 theorem allInScope_repaired (cfg : Cfg) (hr : Repaired cfg) (ops : List (Op α)) :
-    ∀ (s : State α), Inv s → AllValidC cfg s ops →
+    ∀ (s : State α), Inv s → AllAlong cfg (fun s op => Valid s op ∧ AppendOK cfg s op) s ops →
     (cfg.priorityFix = true ∨ ∀ op ∈ ops, isNpLeft op = false) → AllInScope cfg s ops := by
   induction ops with
   | nil => intro _ _ _ _; trivial
@@ -421,7 +545,7 @@ theorem allInScope_repaired (cfg : Cfg) (hr : Repaired cfg) (ops : List (Op α))
       rcases hn with hn | hn
       · exact Or.inl hn
       · exact Or.inr (fun op' ho => hn op' (by simp [ho]))
-    have hin := inScope_repaired cfg hr s op h.1 hv1 hn1
+    have hin := inScope_repaired cfg hr s op h.1 hv1.1 hn1 hv1.2
     have hst := not_stale_of_fix cfg hr.2.2.1 s op
     refine ⟨hin, hst, ?_⟩
     cases hs : step cfg s op with
@@ -439,7 +563,9 @@ starting from any coherent non-empty array, the rows of the object are the rows 
 model after the same history and the two stored representations are coherent. -/
 theorem history_refines (s : State α) (ops : List (Op α)) (h : Inv s) (hv : AllValid s ops) :
     (run Cfg.current s ops).array = specRun s.array ops ∧ Coherent (run Cfg.current s ops) :=
-  history_refines_variant Cfg.current s ops h (allInScope_repaired _ repaired_current ops s h hv (Or.inl rfl))
+  history_refines_variant Cfg.current s ops h
+    (allInScope_repaired _ repaired_current ops s h
+      (allAlong_mono _ _ _ (fun _ _ hp => ⟨hp, Or.inl rfl⟩) ops s hv) (Or.inl rfl))
 
 def decAllInScope [DecidableEq α] (cfg : Cfg) :
     (ops : List (Op α)) → (s : State α) → Decidable (AllInScope cfg s ops)
@@ -459,6 +585,14 @@ instance [DecidableEq α] (cfg : Cfg) (ops : List (Op α)) (s : State α) :
     Decidable (AllInScope cfg s ops) := decAllInScope cfg ops s
 
 example : C06_history_refines_full Cfg.current := fun s ops h hv => history_refines s ops h hv
+
+/-- before the all-empty `append` repair the full statement of history_refines was false -/
+theorem history_refines_before_append_empty_fix_counterexample :
+    ¬ C06_history_refines_full Cfg.beforeAppendEmpty := by
+  intro h
+  have := (h allEmpty0 [.append [[1]] .listarr] (by decide) (by decide)).1
+  revert this
+  decide
 
 /-- before the operator-priority repair: `a = np.int64(2) * a` on `[[1], [2, 3]]` raised, the list of rows
 becomes `[[2], [4, 6]]` -/
@@ -510,24 +644,31 @@ theorem history_observers_variant (cfg : Cfg) (s : State α) (ops : List (Op α)
     (∀ i, obsRow s' i = specRow rows' i) ∧ (∀ i j, obsElem s' i j = specElem rows' i j) ∧
     obsIter s' = rows' ∧ obsFlat s' = rows'.flatten ∧ obsLengths s' = rows'.map List.length ∧
     obsLen s' = rows'.length ∧
-    (∀ (β : Type) (f : β → α → β) (init : β), obsReduce s' f init = rows'.flatten.foldl f init) := by
+    (∀ (β : Type) (f : β → α → β) (init : β), obsReduce s' f init = rows'.flatten.foldl f init) ∧
+    (∀ r, r < rows'.length → (obsStarts s')[r]? = some ((rows'.take r).map List.length).sum) ∧
+    obsSize s' = (rows'.map List.length).sum := by
   obtain ⟨h1, h2⟩ := history_refines_variant cfg s ops h hall
   have ho := observers_agree (run cfg s ops) h2
   simp only
   rw [← h1]
-  exact ⟨ho.1, ho.2.1, ho.2.2.1, ho.2.2.2.1, ho.2.2.2.2.1, ho.2.2.2.2.2.2.1, ho.2.2.2.2.2.2.2.2⟩
+  exact ⟨ho.1, ho.2.1, ho.2.2.1, ho.2.2.2.1, ho.2.2.2.2.1, ho.2.2.2.2.2.2.1, ho.2.2.2.2.2.2.2.2,
+    ho.2.2.2.2.2.1, ho.2.2.2.2.2.2.2.1⟩
 
-/-- **history_observers**, full strength, `/repo` HEAD: after any finite history of valid operations
-every observer of the object (rows, cells incl. negative indices / IndexError, iteration, flat data,
-lengths, len, every reduction) equals the observer of the list-of-rows model after that history. -/
+/-- **history_observers**, full strength, `/repo` HEAD: after any finite history of valid operations every
+observer of the object (rows, cells incl. negative indices / IndexError, iteration, flat data, lengths,
+starts, len, size, every reduction) equals the observer of the list-of-rows model after that history. -/
 theorem history_observers (s : State α) (ops : List (Op α)) (h : Inv s) (hv : AllValid s ops) :
     let s' := run Cfg.current s ops
     let rows' := specRun s.array ops
     (∀ i, obsRow s' i = specRow rows' i) ∧ (∀ i j, obsElem s' i j = specElem rows' i j) ∧
     obsIter s' = rows' ∧ obsFlat s' = rows'.flatten ∧ obsLengths s' = rows'.map List.length ∧
     obsLen s' = rows'.length ∧
-    (∀ (β : Type) (f : β → α → β) (init : β), obsReduce s' f init = rows'.flatten.foldl f init) :=
-  history_observers_variant Cfg.current s ops h (allInScope_repaired _ repaired_current ops s h hv (Or.inl rfl))
+    (∀ (β : Type) (f : β → α → β) (init : β), obsReduce s' f init = rows'.flatten.foldl f init) ∧
+    (∀ r, r < rows'.length → (obsStarts s')[r]? = some ((rows'.take r).map List.length).sum) ∧
+    obsSize s' = (rows'.map List.length).sum :=
+  history_observers_variant Cfg.current s ops h
+    (allInScope_repaired _ repaired_current ops s h
+      (allAlong_mono _ _ _ (fun _ _ hp => ⟨hp, Or.inl rfl⟩) ops s hv) (Or.inl rfl))
 
 -- non-vacuity on `/repo` HEAD: a history through every writer family, incl. the formerly failing forms
 example : AllValid block0
